@@ -409,6 +409,48 @@ pub fn run_case(base: &Base, what: &Value, rep: &mut Report, trace: &mut Vec<Val
         // reported here with a replay; kept out of the trace so that the rest of the file is validated
         trace.truncate(before);
     }
+    if trace.len() > 50_000 {
+        spill(trace);
+    }
+}
+
+thread_local! {
+    /// the trace of a long run goes to disk as it grows (millions of executions do not fit in memory)
+    static SPILL: std::cell::RefCell<Option<(std::io::BufWriter<std::fs::File>, u64)>> = const { std::cell::RefCell::new(None) };
+}
+
+pub fn set_spill(path: &str) {
+    let f = std::io::BufWriter::new(std::fs::File::create(path).expect("trace part file"));
+    SPILL.with(|s| *s.borrow_mut() = Some((f, 0)));
+}
+
+/// write the events collected so far to this thread's part file (if one is set) and forget them
+pub fn spill(trace: &mut Vec<Value>) {
+    use std::io::Write;
+    SPILL.with(|s| {
+        if let Some((f, n)) = s.borrow_mut().as_mut() {
+            for e in trace.iter() {
+                let _ = writeln!(f, "{e}");
+            }
+            *n += trace.len() as u64;
+            trace.clear();
+        }
+    });
+}
+
+/// flush the rest; number of events written by this thread
+pub fn finish_spill(trace: &mut Vec<Value>) -> u64 {
+    use std::io::Write;
+    spill(trace);
+    SPILL.with(|s| {
+        match s.borrow_mut().take() {
+            Some((mut f, n)) => {
+                let _ = f.flush();
+                n
+            }
+            None => 0,
+        }
+    })
 }
 
 fn class_matches(m: &Value, kind: &str, ty: &str) -> bool {
